@@ -11640,3 +11640,824 @@ func scannedLine(c *Ctx, v ssa.Value, f *ssa.Function, depth int) bool {
 	}
 	return sites > 0 && all
 }
+
+// ---------- C01-R20: nobody in front of the engines parses the body as a form ----------
+func init() { registerExtra("C01", extraC01NoFormParsing) }
+
+func extraC01NoFormParsing(c *Ctx, r *Report) {
+	r.Rule("C01-R20", "the code in front of the proxy engines (handlers, middleware, inspectors, security, utilities) never calls the form accessors of net/http on a request — FormValue, PostFormValue, ParseForm, ParseMultipartForm, FormFile, MultipartReader: for url-encoded and multipart content types they read r.Body to its end and nothing puts it back, so the engines forward an empty body for exactly the non-JSON uploads (audio transcription, image edits, curl -d)", 0)
+	deny := map[string]bool{"FormValue": true, "PostFormValue": true, "ParseForm": true, "ParseMultipartForm": true, "FormFile": true, "MultipartReader": true}
+	n := 0
+	for _, f := range c.Funcs {
+		if !c.inRepo(f) || f.Blocks == nil {
+			continue
+		}
+		eachInstr(f, func(in ssa.Instruction) {
+			cc := getCall(in)
+			if cc == nil || cc.IsInvoke() {
+				return
+			}
+			ci := describeCall(cc)
+			if ci.Pkg == "net/http" && ci.Recv == "Request" && deny[ci.Name] {
+				n++
+				r.Bad("C01-R20", fname(f)+":Request."+ci.Name, in.Pos(), "Request."+ci.Name+" parses the request body as a form: for application/x-www-form-urlencoded and multipart/form-data requests the body is consumed here and the backend receives none of it")
+			}
+		})
+	}
+	if n == 0 {
+		r.Triv("C01-R20", "form-accessors", token.NoPos, "no form accessor is called on a request anywhere in the repository")
+	}
+	addMutants(Mutant{Prop: "C01", Name: "model-taken-from-form-value", File: "internal/app/handlers/handler_proxy.go", Rule: "C01-R20",
+		Old: "	pr.stats.PathResolutionMs = time.Since(pathResolutionStart).Milliseconds()\n", New: "	if pr.model == \"\" {\n		pr.model = r.FormValue(\"model\")\n	}\n	pr.stats.PathResolutionMs = time.Since(pathResolutionStart).Milliseconds()\n"})
+}
+
+// ---------- C03-R23 / C07-R23: a probe's verdict never echoes the status the endpoint already had ----------
+func init() {
+	registerExtra("C03", func(c *Ctx, r *Report) { extraProbeVerdictIndependent(c, r, "C03-R23") })
+	registerExtra("C07", func(c *Ctx, r *Report) { extraProbeVerdictIndependent(c, r, "C07-R23") })
+}
+
+func extraProbeVerdictIndependent(c *Ctx, r *Report, rule string) {
+	r.Rule(rule, "every value the health package stores into HealthCheckResult.Status is a constant or the result of the package's status-mapping function (arguments: HTTP status, latency, error, error class) — never a copy of the endpoint's current Status: 'report it as we found it' for a check that was abandoned or timed out turns every probe that hits check_timeout into a silent 'still healthy', and a wedged endpoint stays in rotation until the breaker opens", 3)
+	n := 0
+	for _, f := range c.Funcs {
+		if !strings.HasSuffix(fnPkgPath(f), pkgHealth) || f.Blocks == nil {
+			continue
+		}
+		eachInstr(f, func(in ssa.Instruction) {
+			st, ok := in.(*ssa.Store)
+			if !ok || !isField(st.Addr, pkgDomain, "HealthCheckResult", "Status") {
+				return
+			}
+			n++
+			key := fname(f) + ":result-status-source"
+			v := stripConv(st.Val)
+			switch {
+			case mentionsField(v, pkgDomain, "Endpoint", "Status", 3):
+				r.Bad(rule, key, in.Pos(), "the probe's result is given the status the endpoint had before the probe: a check that failed (timed out, was abandoned) is written to the repository as the previous — possibly healthy — status, resets the back-off, and the endpoint keeps receiving traffic")
+			default:
+				r.OK(rule, key, in.Pos(), "a constant or the status mapping's answer")
+			}
+		})
+	}
+	if n == 0 {
+		r.Undecided(rule, "result-status-stores", token.NoPos, "no store to HealthCheckResult.Status found in the health package")
+	}
+	addMutants(Mutant{Prop: rule[:3], Name: "timed-out-probe-reports-previous-status", File: "internal/adapter/health/client.go", Rule: rule,
+		Old: "		result.StatusCode = 0 // No HTTP response received\n", New: "		result.StatusCode = 0 // No HTTP response received\n		if checkCtx.Err() != nil {\n			result.Status = endpoint.Status\n		}\n"})
+}
+
+// ---------- C04-R18: wrappers around an attempt keep its error chain ----------
+func init() { registerExtra("C04", extraC04WrappersKeepChain) }
+
+func extraC04WrappersKeepChain(c *Ctx, r *Report) {
+	r.Rule("C04-R18", "a function that wraps the per-attempt proxy function (the ProxyFunc closures handed to the retry loop, and thin wrappers between them and the worker) returns the worker's error unchanged or wrapped with %w: the retry loop recognises 'circuit open, try the next candidate' with errors.Is and connection failures with errors.As, so an error re-labelled with %v / %s (or built from err.Error()) turns a skip into a fatal error — the request fails although other candidates remain", 2)
+	n := 0
+	for _, impl := range proxyFuncImpls(c) {
+		if impl.Blocks == nil {
+			continue
+		}
+		// the worker call: a static repo call that receives the wrapper's own writer
+		var inner []ssa.Value
+		eachInstr(impl, func(in ssa.Instruction) {
+			call, ok := in.(*ssa.Call)
+			if !ok {
+				return
+			}
+			if sc := call.Call.StaticCallee(); sc != nil && c.inRepo(sc) {
+				for _, a := range call.Call.Args {
+					if isNamed(a.Type(), "net/http", "ResponseWriter") {
+						inner = append(inner, call)
+					}
+				}
+			}
+		})
+		if len(inner) == 0 {
+			continue
+		}
+		isInnerErr := func(v ssa.Value) bool {
+			for d := 0; d < 4 && v != nil; d++ {
+				for _, iv := range inner {
+					if v == iv {
+						return true
+					}
+				}
+				switch x := v.(type) {
+				case *ssa.Extract:
+					v = x.Tuple
+				case *ssa.MakeInterface:
+					v = x.X
+				case *ssa.ChangeInterface:
+					v = x.X
+				default:
+					return false
+				}
+			}
+			return false
+		}
+		n++
+		key := fname(impl) + ":attempt-error-chain-kept"
+		var bad ssa.Instruction
+		eachInstr(impl, func(in ssa.Instruction) {
+			call, ok := in.(*ssa.Call)
+			if !ok || bad != nil {
+				return
+			}
+			ci := describeCall(&call.Call)
+			if ci.Pkg == "fmt" && ci.Name == "Errorf" && len(call.Call.Args) >= 2 {
+				format, ok := constString(call.Call.Args[0])
+				if !ok {
+					return
+				}
+				elems := variadicElemsOrdered(call.Call.Args[1])
+				verbs := fmtVerbs(format)
+				for i, e := range elems {
+					if e != nil && isInnerErr(e) {
+						if i >= len(verbs) || verbs[i] != 'w' {
+							bad = in
+						}
+					}
+				}
+			}
+			if ci.Pkg == "errors" && ci.Name == "New" {
+				// errors.New(err.Error()): derived from the inner error's text
+				if c2, ok := call.Call.Args[0].(*ssa.Call); ok && c2.Call.IsInvoke() && c2.Call.Method.Name() == "Error" && isInnerErr(c2.Call.Value) {
+					bad = in
+				}
+			}
+		})
+		if bad != nil {
+			r.Bad("C04-R18", key, bad.Pos(), "the wrapper re-labels the attempt's error without %w: errors.Is(err, ErrCircuitOpen) and the errors.As tests of the retry predicate no longer see the cause, so a circuit-open skip (and every failure recognised by type) ends the request instead of moving on to the next candidate")
+		} else {
+			r.OK("C04-R18", key, impl.Pos(), "the attempt's error is returned as is (or with %w)")
+		}
+	}
+	if n == 0 {
+		r.Undecided("C04-R18", "attempt-wrappers", token.NoPos, "no wrapper around the per-attempt function found")
+	}
+	addMutants(Mutant{Prop: "C04", Name: "attempt-error-relabelled-with-v", File: "internal/adapter/proxy/sherpa/service_retry.go", Rule: "C04-R18",
+		Old: "		return s.proxyToSingleEndpoint(ctx, w, r, endpoint, stats, rlog)\n", New: "		if perr := s.proxyToSingleEndpoint(ctx, w, r, endpoint, stats, rlog); perr != nil {\n			return fmt.Errorf(\"endpoint %s: %v\", endpoint.Name, perr)\n		}\n		return nil\n"})
+}
+
+// fmtVerbs: the verbs of a Printf format string in argument order (flags/width skipped, %% ignored).
+func fmtVerbs(format string) []byte {
+	var out []byte
+	for i := 0; i < len(format); i++ {
+		if format[i] != '%' {
+			continue
+		}
+		i++
+		for i < len(format) && strings.ContainsRune("+-# 0123456789.*[]", rune(format[i])) {
+			i++
+		}
+		if i < len(format) {
+			if format[i] != '%' {
+				out = append(out, format[i])
+			}
+		}
+	}
+	return out
+}
+
+// ---------- C06-R13: every balancer the factory hands out has a rotation of its own ----------
+func init() { registerExtra("C06", extraC06FactoryFresh) }
+
+func extraC06FactoryFresh(c *Ctx, r *Report) {
+	r.Rule("C06-R13", "balancer.Factory.Create builds a new selector on every call (its non-nil result is the result of calling the registered creator / a constructor), it does not hand out an instance it stored earlier: the round-robin selector carries its rotation counter in the instance, so two balancers created from one factory and used side by side would share one counter — each of them then skips endpoints of its own pool", 1)
+	f := c.Fn(pkgBalancer, "(*Factory).Create")
+	if f == nil {
+		r.Unresolved("C06-R13", "balancer.(*Factory).Create")
+		return
+	}
+	key := fname(f) + ":returns-fresh-selector"
+	var bad ssa.Value
+	n := 0
+	var walk func(v ssa.Value, d int)
+	walk = func(v ssa.Value, d int) {
+		if v == nil || d == 0 || bad != nil || isNilConst(v) {
+			return
+		}
+		switch x := v.(type) {
+		case *ssa.Phi:
+			for _, e := range x.Edges {
+				walk(e, d-1)
+			}
+		case *ssa.Call:
+			n++ // creator(f.statsCollector) or NewXSelector(…): fresh
+		case *ssa.MakeInterface:
+			walk(x.X, d-1)
+		case *ssa.ChangeInterface:
+			walk(x.X, d-1)
+		case *ssa.Alloc:
+			n++
+		default:
+			// a lookup in a map, a field load, an extract of a comma-ok lookup: a stored instance
+			bad = v
+		}
+	}
+	for _, rv := range flatResults(f, 0) {
+		walk(rv, 5)
+	}
+	switch {
+	case bad != nil:
+		r.Bad("C06-R13", key, posOfValue(bad), "Create can return a selector it kept from an earlier call: every balancer built from this factory shares that instance — and with it the round-robin rotation counter, so side-by-side pools no longer get 'exactly k of any n*k consecutive selections' each")
+	case n > 0:
+		r.OK("C06-R13", key, f.Pos(), "every selector returned is built by the call")
+	default:
+		r.Undecided("C06-R13", key, f.Pos(), "no selector-producing return found")
+	}
+	addMutants(Mutant{Prop: "C06", Name: "factory-caches-selectors", File: "internal/adapter/balancer/factory.go", Rule: "C06-R13",
+		Old: "	return creator(f.statsCollector), nil\n", New: "	if cached, ok := builtSelectors.Load(name); ok {\n		return cached.(domain.EndpointSelector), nil\n	}\n	sel := creator(f.statsCollector)\n	builtSelectors.Store(name, sel)\n	return sel, nil\n",
+		Edits: []Edit{{"internal/adapter/balancer/factory.go", "type Factory struct {", "var builtSelectors sync.Map\n\ntype Factory struct {"}}})
+}
+
+// ---------- C07-R24: the health scheduler's period is fixed ----------
+func init() { registerExtra("C07", extraC07SchedulerPeriodFixed) }
+
+func extraC07SchedulerPeriodFixed(c *Ctx, r *Report) {
+	r.Rule("C07-R24", "the period of the health scheduler's ticker (time.NewTicker / Ticker.Reset in the health package) is a compile-time constant or clamped by one (min(x, K)): the per-endpoint back-off schedule check_interval x 1,2,4,8,12 capped at 60 s is only honoured if the scheduler looks for due endpoints at least that often — a period taken from configuration (refresh_interval: 10m) makes every endpoint wait for the next tick, however short its own interval", 1)
+	n := 0
+	for _, f := range c.Funcs {
+		if !strings.HasSuffix(fnPkgPath(f), pkgHealth) || f.Blocks == nil {
+			continue
+		}
+		eachInstr(f, func(in ssa.Instruction) {
+			cc := getCall(in)
+			if cc == nil || cc.IsInvoke() {
+				return
+			}
+			ci := describeCall(cc)
+			var d ssa.Value
+			switch {
+			case ci.Pkg == "time" && ci.Recv == "" && (ci.Name == "NewTicker" || ci.Name == "Tick") && len(cc.Args) == 1:
+				d = cc.Args[0]
+			case ci.Pkg == "time" && ci.Recv == "Ticker" && ci.Name == "Reset" && len(cc.Args) == 2:
+				d = cc.Args[1]
+			default:
+				return
+			}
+			n++
+			key := fname(f) + ":scheduler-period"
+			ok := false
+			switch x := stripConv(d).(type) {
+			case *ssa.Const:
+				ok = true
+			case *ssa.Call:
+				if b, isB := x.Call.Value.(*ssa.Builtin); isB && b.Name() == "min" {
+					for _, a := range x.Call.Args {
+						if _, isK := a.(*ssa.Const); isK {
+							ok = true
+						}
+					}
+				}
+			}
+			if ok {
+				r.OK("C07-R24", key, in.Pos(), "constant (or constant-clamped) period")
+			} else {
+				r.Bad("C07-R24", key, in.Pos(), "the health scheduler's tick period is a runtime value with no constant bound: with a long configured period no endpoint is probed more often than that, whatever its check interval and back-off — a failed endpoint is re-admitted, and a dead one noticed, only at the next tick")
+			}
+		})
+	}
+	if n == 0 {
+		r.Undecided("C07-R24", "scheduler-tickers", token.NoPos, "no ticker found in the health package")
+	}
+	addMutants(Mutant{Prop: "C07", Name: "scheduler-period-from-a-field", File: "internal/adapter/health/checker.go", Rule: "C07-R24",
+		Old: "	c.ticker = time.NewTicker(DefaultHealthCheckInterval)\n", New: "	c.ticker = time.NewTicker(schedulerPeriod)\n",
+		Edits: []Edit{{"internal/adapter/health/checker.go", "// SetRecoveryCallback sets the callback", "var schedulerPeriod = DefaultHealthCheckInterval\n\n// SetRecoveryCallback sets the callback"}}})
+}
+
+// ---------- C08-R15: the olla breaker opens at AND above the threshold ----------
+func init() { registerExtra("C08", extraC08OpensAtOrAbove) }
+
+func extraC08OpensAtOrAbove(c *Ctx, r *Report) {
+	r.Rule("C08-R15", "where a breaker's failure recorder publishes 'open' under a comparison of the failure count with the threshold, the comparison is an inequality (count >= threshold / count > threshold-1), never an equality: the olla breaker keeps its count across open→half-open, so the failed probe that must re-open it carries a count ABOVE the threshold — with `== threshold` the state stays half-open and every request reaches the dead endpoint", 1)
+	n := 0
+	for _, f := range c.Funcs {
+		pp := fnPkgPath(f)
+		if !(strings.Contains(pp, "/adapter/proxy/olla") || strings.HasSuffix(pp, "/adapter/unifier") || strings.HasSuffix(pp, pkgHealth)) || f.Blocks == nil || f.Signature.Recv() == nil {
+			continue
+		}
+		if !strings.Contains(strings.ToLower(recvTypeName(f.Signature.Recv().Type())), "breaker") {
+			continue
+		}
+		eachInstr(f, func(in ssa.Instruction) {
+			// publishing open: atomic store / Store method of a constant into the state field, or a call of a transition
+			// helper — identified by the guarding comparison mentioning a *threshold* field
+			for _, cf := range normFacts(condFacts(in.Block())) {
+				bo, ok := cf.Cond.(*ssa.BinOp)
+				if !ok {
+					continue
+				}
+				thr := func(v ssa.Value) bool {
+					found := false
+					var walk func(v ssa.Value, d int)
+					walk = func(v ssa.Value, d int) {
+						if v == nil || d == 0 || found {
+							return
+						}
+						if _, fld, ok := fieldOf(v); ok && strings.Contains(strings.ToLower(fld.Name()), "threshold") && !strings.Contains(strings.ToLower(fld.Name()), "success") {
+							found = true
+							return
+						}
+						if x, ok := v.(ssa.Instruction); ok {
+							for _, op := range x.Operands(nil) {
+								if *op != nil {
+									walk(*op, d-1)
+								}
+							}
+						}
+					}
+					walk(v, 4)
+					return found
+				}
+				if !thr(bo.X) && !thr(bo.Y) {
+					continue
+				}
+				// is `in` the publication? a store of a non-zero constant into a field named state, or a call named *Open*
+				pub := false
+				if cc := getCall(in); cc != nil {
+					ci := describeCall(cc)
+					if ci.Pkg == "sync/atomic" && strings.HasPrefix(ci.Name, "Store") && len(cc.Args) >= 2 {
+						if _, fld, ok := fieldOf(cc.Args[0]); ok && strings.Contains(strings.ToLower(fld.Name()), "state") {
+							if k, isK := constInt(cc.Args[len(cc.Args)-1]); isK && k == 1 {
+								pub = true
+							}
+						}
+					}
+					if sc := cc.StaticCallee(); sc != nil && strings.Contains(sc.Name(), "ToOpen") {
+						pub = true
+					}
+				}
+				if !pub {
+					continue
+				}
+				n++
+				key := fname(f) + ":opens-at-or-above-threshold"
+				if (bo.Op == token.EQL && cf.True) || (bo.Op == token.NEQ && !cf.True) {
+					r.Bad("C08-R15", key, in.Pos(), "the breaker is opened only when the failure count EQUALS the threshold: a count that is already above it — the failed probe of a half-open breaker whose count was kept — never opens it again, so the breaker stays half-open and lets every request through to a dead endpoint")
+				} else {
+					r.OK("C08-R15", key, in.Pos(), "opened under an inequality on the failure count")
+				}
+			}
+		})
+	}
+	if n == 0 {
+		r.Undecided("C08-R15", "threshold-publications", token.NoPos, "no breaker publishes 'open' under a threshold comparison")
+	}
+	addMutants(Mutant{Prop: "C08", Name: "olla-opens-only-at-exactly-threshold", File: "internal/adapter/proxy/olla/service.go", Rule: "C08-R15",
+		Old: "	if failures >= cb.threshold {\n		atomic.StoreInt64(&cb.state, 1) // open\n", New: "	if failures == cb.threshold {\n		atomic.StoreInt64(&cb.state, 1) // open\n"})
+}
+
+// ---------- C08-R16: leaving 'open' clears the failure count (unifier breaker) ----------
+func init() { registerExtra("C08", extraC08TransitionsResetFailures) }
+
+func extraC08TransitionsResetFailures(c *Ctx, r *Report) {
+	r.Rule("C08-R16", "in the unifier's circuit breaker, every function that moves the breaker to half-open or to closed (stores that state constant into the state field, itself or by handing the constant to a helper that stores it) also resets the failure counter (failures.Store(0)), itself or in the helpers it calls: a breaker that closes with the count that tripped it still in place re-opens on the first failure after recovery — 'opens only after threshold consecutive failures' and 'a success clears the count' both fail", 2)
+	pkgU := "internal/adapter/unifier"
+	const owner = "CircuitBreaker"
+	closedV, okC := c.ConstVal(pkgU, "CircuitClosed")
+	halfV, okH := c.ConstVal(pkgU, "CircuitHalfOpen")
+	if !okC || !okH {
+		r.Unresolved("C08-R16", "unifier.CircuitClosed / CircuitHalfOpen")
+		return
+	}
+	want := map[int64]string{}
+	if v, ok := constant.Int64Val(closedV); ok {
+		want[v] = "closed"
+	}
+	if v, ok := constant.Int64Val(halfV); ok {
+		want[v] = "half-open"
+	}
+	isOwner := func(g *ssa.Function) bool {
+		return g != nil && g.Signature.Recv() != nil && isNamed(g.Signature.Recv().Type(), pkgU, owner) && g.Blocks != nil
+	}
+	// storesState(g, env): the state constants g stores into the state field (parameters resolved through env)
+	var storesState func(g *ssa.Function, env map[*ssa.Parameter]int64, d int) []int64
+	storesState = func(g *ssa.Function, env map[*ssa.Parameter]int64, d int) []int64 {
+		var out []int64
+		if d == 0 {
+			return nil
+		}
+		valOf := func(v ssa.Value) (int64, bool) {
+			v = stripConv(v)
+			if k, ok := constInt(v); ok {
+				return k, true
+			}
+			if p, ok := v.(*ssa.Parameter); ok {
+				k, ok := env[p]
+				return k, ok
+			}
+			return 0, false
+		}
+		eachInstr(g, func(in ssa.Instruction) {
+			cc := getCall(in)
+			if cc == nil || len(cc.Args) == 0 {
+				return
+			}
+			ci := describeCall(cc)
+			if ci.Pkg == "sync/atomic" && ci.Name == "Store" && len(cc.Args) == 2 && isField(cc.Args[0], pkgU, owner, "state") {
+				if k, ok := valOf(cc.Args[1]); ok {
+					out = append(out, k)
+				}
+			}
+			if sc := cc.StaticCallee(); isOwner(sc) && sc != g {
+				env2 := map[*ssa.Parameter]int64{}
+				for i, p := range sc.Params {
+					if i < len(cc.Args) {
+						if k, ok := valOf(cc.Args[i]); ok {
+							env2[p] = k
+						}
+					}
+				}
+				if len(env2) > 0 {
+					out = append(out, storesState(sc, env2, d-1)...)
+				}
+			}
+		})
+		return out
+	}
+	resets := func(g *ssa.Function) bool {
+		found := false
+		for _, h := range withHelpers(g, 2) {
+			eachInstr(h, func(in ssa.Instruction) {
+				cc := getCall(in)
+				if cc == nil || len(cc.Args) != 2 {
+					return
+				}
+				ci := describeCall(cc)
+				if ci.Pkg == "sync/atomic" && ci.Name == "Store" && isField(cc.Args[0], pkgU, owner, "failures") {
+					if k, ok := constInt(cc.Args[1]); ok && k == 0 {
+						found = true
+					}
+				}
+			})
+		}
+		return found
+	}
+	n := 0
+	for _, f := range c.Funcs {
+		if !isOwner(f) || f.Parent() != nil || len(f.Params) != 1 {
+			continue // transition functions take no argument besides the receiver; helpers with a state parameter are judged through their callers
+		}
+		states := storesState(f, map[*ssa.Parameter]int64{}, 3)
+		for _, k := range states {
+			name, relevant := want[k]
+			if !relevant {
+				continue
+			}
+			// only the direct transition helpers: functions whose whole purpose is the transition (they store the state on
+			// every path); the deciding methods (Allow, Record*) reach these through calls
+			direct := false
+			eachInstr(f, func(in ssa.Instruction) {
+				if cc := getCall(in); cc != nil {
+					ci := describeCall(cc)
+					if ci.Pkg == "sync/atomic" && ci.Name == "Store" && len(cc.Args) == 2 && isField(cc.Args[0], pkgU, owner, "state") {
+						direct = true
+					}
+					if sc := cc.StaticCallee(); isOwner(sc) && len(sc.Params) > 1 && len(f.Blocks) == 1 {
+						direct = true
+					}
+				}
+			})
+			if !direct || f.Name() == "Reset" {
+				continue
+			}
+			n++
+			key := fname(f) + ":" + name + "-resets-failures"
+			if resets(f) {
+				r.OK("C08-R16", key, f.Pos(), "the transition clears the failure count")
+			} else {
+				r.Bad("C08-R16", key, f.Pos(), "the breaker enters "+name+" with its failure count untouched: once it closes again the count that tripped it is still there, and a single failure on the recovered endpoint re-opens it (and successes in half-open are measured against a stale count)")
+			}
+		}
+	}
+	if n == 0 {
+		r.Undecided("C08-R16", "transition-functions", token.NoPos, "no function of the unifier breaker stores the half-open / closed state")
+	}
+	addMutants(Mutant{Prop: "C08", Name: "closing-keeps-the-failure-count", File: "internal/adapter/unifier/circuit_breaker.go", Rule: "C08-R16",
+		Old: "	cb.state.Store(int32(CircuitClosed))\n	cb.failures.Store(0)\n", New: "	cb.state.Store(int32(CircuitClosed))\n"})
+}
+
+// ---------- C09-R20 / C10-R22: the unifier does not abandon a listing because its caller's context is over ----------
+func init() {
+	registerExtra("C09", func(c *Ctx, r *Report) { extraUnifierIgnoresCtxState(c, r, "C09-R20") })
+	registerExtra("C10", func(c *Ctx, r *Report) { extraUnifierIgnoresCtxState(c, r, "C10-R22") })
+}
+
+func extraUnifierIgnoresCtxState(c *Ctx, r *Report, rule string) {
+	r.Rule(rule, "no UnifyModels implementation of the unifier package, and not the registry's background unification run, returns early because of the state of the context it was handed (ctx.Err(), <-ctx.Done()): the run is started with the context of the discovery round that stored the listing, and that context is cancelled as soon as the round's errgroup returns — usually before the run starts. A unifier that 'does not start work for a caller that has gone away' leaves the unified catalogue at the previous listing while the per-endpoint index already shows the new one", 2)
+	isCtxState := func(v ssa.Value) bool {
+		found := false
+		var walk func(v ssa.Value, d int)
+		walk = func(v ssa.Value, d int) {
+			if v == nil || d == 0 || found {
+				return
+			}
+			if call, ok := v.(*ssa.Call); ok && call.Call.IsInvoke() && isNamed(call.Call.Value.Type(), "context", "Context") && (call.Call.Method.Name() == "Err" || call.Call.Method.Name() == "Done") {
+				found = true
+				return
+			}
+			if in, ok := v.(ssa.Instruction); ok {
+				for _, op := range in.Operands(nil) {
+					if *op != nil {
+						walk(*op, d-1)
+					}
+				}
+			}
+		}
+		walk(v, 5)
+		return found
+	}
+	n := 0
+	for _, f := range c.Funcs {
+		if f.Parent() != nil || f.Blocks == nil || f.Signature.Recv() == nil {
+			continue
+		}
+		pp := fnPkgPath(f)
+		subject := (strings.HasSuffix(pp, "/adapter/unifier") && f.Name() == "UnifyModels") ||
+			(strings.HasSuffix(pp, pkgRegistry) && f.Name() == "unifyModelsAsync")
+		if !subject {
+			continue
+		}
+		n++
+		key := fname(f) + ":ignores-context-state"
+		var bad token.Pos
+		for _, g := range withAnon(f) {
+			for _, ret := range returnsOf(g) {
+				for _, cf := range normFacts(condFacts(ret.Block())) {
+					if isCtxState(cf.Cond) {
+						bad = retPos(g, ret)
+					}
+				}
+			}
+			eachInstr(g, func(in ssa.Instruction) {
+				if sel, ok := in.(*ssa.Select); ok {
+					for _, st := range sel.States {
+						if isCtxState(st.Chan) {
+							bad = in.Pos()
+						}
+					}
+				}
+			})
+		}
+		if bad.IsValid() {
+			r.Bad(rule, key, bad, "the unification gives up when the context it was started with is already done: the run that follows a discovery round is handed that round's context, which is cancelled by then — the endpoint is neither detached from models it no longer lists nor attributed the new ones, and requests by alias or unified id keep being routed by the old listing")
+		} else {
+			r.OK(rule, key, f.Pos(), "no exit depends on the caller's context")
+		}
+	}
+	if n == 0 {
+		r.Undecided(rule, "unification-entry-points", token.NoPos, "no UnifyModels / unifyModelsAsync found")
+	}
+	addMutants(Mutant{Prop: rule[:3], Name: "unifier-refuses-cancelled-context", File: "internal/adapter/unifier/default_unifier.go", Rule: rule,
+		Old: "	// Empty model lists are valid - they indicate endpoint has no models anymore\n", New: "	if ctx.Err() != nil {\n		return nil, ctx.Err()\n	}\n	// Empty model lists are valid - they indicate endpoint has no models anymore\n"})
+}
+
+// ---------- C10-R23: the removal is passed to the unifier under the unification lock ----------
+func init() { registerExtra("C10", extraC10ForgetUnderLock) }
+
+func extraC10ForgetUnderLock(c *Ctx, r *Report) {
+	r.Rule("C10-R23", "in UnifiedMemoryModelRegistry.RemoveEndpoint the call that makes the unifier forget the endpoint happens while unificationMutex is held: a Lock of that mutex dominates it and no explicit Unlock lies between them (the Unlock is deferred, or comes after). Released in between, a unification run of another endpoint that shares a model can slip in, read the unifier's still-stale record and merge the removed endpoint back into the catalogue — for good, since nothing but a detach of that endpoint removes it", 1)
+	f := c.Fn(pkgRegistry, "(*UnifiedMemoryModelRegistry).RemoveEndpoint")
+	if f == nil {
+		r.Unresolved("C10-R23", "(*UnifiedMemoryModelRegistry).RemoveEndpoint")
+		return
+	}
+	isMu := func(v ssa.Value) bool {
+		return mentionsField(v, pkgRegistry, "UnifiedMemoryModelRegistry", "unificationMutex", 3)
+	}
+	var locks, unlocks, tells []ssa.Instruction
+	memo := map[*ssa.Function]bool{}
+	var reachesUnifier func(g *ssa.Function, d int) bool
+	reachesUnifier = func(g *ssa.Function, d int) bool {
+		if g == nil || g.Blocks == nil || d == 0 {
+			return false
+		}
+		if v, ok := memo[g]; ok {
+			return v
+		}
+		memo[g] = false
+		found := false
+		eachInstr(g, func(in ssa.Instruction) {
+			cc := getCall(in)
+			if cc == nil || found {
+				return
+			}
+			if cc.IsInvoke() && (cc.Method.Name() == "UnifyModels" || cc.Method.Name() == "RemoveEndpoint") && (isNamed(cc.Value.Type(), "internal/core/ports", "ModelUnifier") || cc.Method.Name() == "RemoveEndpoint") {
+				found = true
+				return
+			}
+			if sc := cc.StaticCallee(); sc != nil && strings.HasSuffix(fnPkgPath(sc), pkgRegistry) && reachesUnifier(sc, d-1) {
+				found = true
+			}
+		})
+		memo[g] = found
+		return found
+	}
+	eachInstr(f, func(in ssa.Instruction) {
+		cc := getCall(in)
+		if cc == nil {
+			return
+		}
+		_, isDefer := in.(*ssa.Defer)
+		ci := describeCall(cc)
+		if ci.Pkg == "sync" && len(cc.Args) > 0 && isMu(cc.Args[0]) {
+			switch ci.Name {
+			case "Lock":
+				locks = append(locks, in)
+			case "Unlock":
+				if !isDefer {
+					unlocks = append(unlocks, in)
+				}
+			}
+			return
+		}
+		if isDefer {
+			return
+		}
+		if cc.IsInvoke() && cc.Method.Name() == "UnifyModels" {
+			tells = append(tells, in)
+		} else if sc := cc.StaticCallee(); sc != nil && sc != f && strings.HasSuffix(fnPkgPath(sc), pkgRegistry) && sc.Signature.Recv() != nil && isNamed(sc.Signature.Recv().Type(), pkgRegistry, "UnifiedMemoryModelRegistry") && reachesUnifier(sc, 3) {
+			tells = append(tells, in)
+		}
+	})
+	key := fname(f) + ":unifier-told-under-lock"
+	if len(tells) == 0 {
+		r.Undecided("C10-R23", key, f.Pos(), "no call that reaches the unifier found (see C10-R21)")
+		return
+	}
+	bad := ""
+	for _, t := range tells {
+		held := false
+		for _, l := range locks {
+			if instrDominates(l, t) {
+				held = true
+				for _, u := range unlocks {
+					if instrDominates(l, u) && reachAvoiding(u, t, nil) && instrDominates(u, t) {
+						held = false
+					}
+				}
+			}
+		}
+		if !held {
+			bad = c.Pos(t.Pos())
+		}
+	}
+	if bad != "" {
+		r.Bad("C10-R23", key, f.Pos(), "the unifier is told about the removal (at "+bad+") after unificationMutex was released (or without it): a concurrent unification of another endpoint can run between the detach and the forget, read the unifier's stale record of the removed endpoint and put it back into the unified catalogue")
+	} else {
+		r.OK("C10-R23", key, f.Pos(), "detach and forget happen under one hold of unificationMutex")
+	}
+	addMutants(Mutant{Prop: "C10", Name: "forget-after-unlock", File: "internal/adapter/registry/unified_memory_registry.go", Rule: "C10-R23",
+		Old: "	r.unificationMutex.Lock()\n	defer r.unificationMutex.Unlock()\n\n	// Remove endpoint from all unified models\n	r.detachEndpointLocked(endpointURL, func(string) bool { return true })\n", New: "	r.unificationMutex.Lock()\n	// Remove endpoint from all unified models\n	r.detachEndpointLocked(endpointURL, func(string) bool { return true })\n	r.unificationMutex.Unlock()\n"})
+}
+
+// ---------- C10-R24: the handlers only read the catalogue's objects ----------
+func init() { registerExtra("C10", extraC10HandlersDoNotWriteCatalogue) }
+
+func extraC10HandlersDoNotWriteCatalogue(c *Ctx, r *Report) {
+	r.Rule("C10-R24", "the handlers never write through a *domain.UnifiedModel they received (a parameter, an element of a parameter slice, a registry answer): no store into one of its fields or into an element of its SourceEndpoints / Aliases / Capabilities, and no append onto a re-slice of such a field (`m.SourceEndpoints[:0]` shares the backing array — appending 'the healthy ones' compacts the LIVE entry in place). GetUnifiedModels hands out the catalogue's own objects, so a listing request would rewrite attributions although no discovery result was processed", 0)
+	isUM := func(t types.Type) bool {
+		pt, ok := t.Underlying().(*types.Pointer)
+		if !ok {
+			return false
+		}
+		if _, direct := types.Unalias(pt.Elem()).(*types.Named); !direct {
+			return false // **UnifiedModel, *[1]*UnifiedModel: cells that hold a model pointer, not a model
+		}
+		return isNamed(pt.Elem(), pkgDomain, "UnifiedModel")
+	}
+	n := 0
+	for _, f := range c.Funcs {
+		if !strings.HasSuffix(fnPkgPath(f), pkgHandlers) || f.Blocks == nil {
+			continue
+		}
+		// received models: *UnifiedModel values that are not addresses of locals
+		recv := map[ssa.Value]bool{}
+		eachInstr(f, func(in ssa.Instruction) {
+			v, ok := in.(ssa.Value)
+			if !ok || !isUM(v.Type()) {
+				return
+			}
+			if _, isAlloc := v.(*ssa.Alloc); isAlloc {
+				return
+			}
+			recv[v] = true
+		})
+		for _, p := range f.Params {
+			if isUM(p.Type()) {
+				recv[p] = true
+			}
+		}
+		if len(recv) == 0 {
+			continue
+		}
+		// memory reached from a received model
+		alias := map[ssa.Value]bool{}
+		for v := range recv {
+			alias[v] = true
+		}
+		for changed := true; changed; {
+			changed = false
+			eachInstr(f, func(in ssa.Instruction) {
+				v, ok := in.(ssa.Value)
+				if !ok || alias[v] {
+					return
+				}
+				from := false
+				switch x := in.(type) {
+				case *ssa.FieldAddr:
+					from = alias[x.X]
+				case *ssa.IndexAddr:
+					from = alias[x.X]
+				case *ssa.Slice:
+					from = alias[x.X]
+				case *ssa.UnOp:
+					// loading a slice/map/pointer field keeps the alias; loading a struct copies it
+					if x.Op == token.MUL && alias[x.X] {
+						switch x.Type().Underlying().(type) {
+						case *types.Slice, *types.Map, *types.Pointer:
+							from = true
+						}
+					}
+				case *ssa.Phi:
+					for _, e := range x.Edges {
+						if alias[e] {
+							from = true
+						}
+					}
+				}
+				if from {
+					alias[v] = true
+					changed = true
+				}
+			})
+		}
+		eachInstr(f, func(in ssa.Instruction) {
+			bad := ""
+			switch x := in.(type) {
+			case *ssa.Store:
+				if _, isFA := x.Addr.(*ssa.FieldAddr); isFA && alias[x.Addr] {
+					bad = "stores into a field of a catalogue entry"
+				}
+				if _, isIA := x.Addr.(*ssa.IndexAddr); isIA && alias[x.Addr] {
+					bad = "stores into an element of a catalogue entry's list"
+				}
+			case *ssa.MapUpdate:
+				if alias[x.Map] {
+					bad = "updates a map of a catalogue entry"
+				}
+			case *ssa.Call:
+				if b, ok := x.Call.Value.(*ssa.Builtin); ok && b.Name() == "append" && len(x.Call.Args) > 0 {
+					if sl, isSl := x.Call.Args[0].(*ssa.Slice); isSl && alias[sl] {
+						bad = "appends onto a re-slice of a catalogue entry's list (same backing array)"
+					}
+					if ph, isPhi := x.Call.Args[0].(*ssa.Phi); isPhi && alias[ph] {
+						for _, e := range ph.Edges {
+							if sl, isSl := e.(*ssa.Slice); isSl && alias[sl] {
+								bad = "appends onto a re-slice of a catalogue entry's list (same backing array)"
+							}
+						}
+					}
+				}
+			}
+			if bad != "" {
+				n++
+				r.Bad("C10-R24", fname(f)+":writes-catalogue-entry", in.Pos(), "the handler "+bad+": the object is the registry's live entry, so serving a models listing changes which endpoints a model is attributed to — without any discovery result or removal")
+			}
+		})
+	}
+	if n == 0 {
+		r.Triv("C10-R24", "handler-writes-into-catalogue-entries", token.NoPos, "no handler writes through a *UnifiedModel it received")
+	}
+	addMutants(Mutant{Prop: "C10", Name: "health-filter-compacts-live-sources", File: "internal/app/handlers/handler_unified_models.go", Rule: "C10-R24",
+		Old: "		hasHealthyEndpoint := false\n		for _, source := range model.SourceEndpoints {\n			if healthyMap[source.EndpointURL] {\n				hasHealthyEndpoint = true\n				break\n			}\n		}\n", New: "		hasHealthyEndpoint := false\n		kept := model.SourceEndpoints[:0]\n		for _, source := range model.SourceEndpoints {\n			if healthyMap[source.EndpointURL] {\n				hasHealthyEndpoint = true\n				kept = append(kept, source)\n			}\n		}\n		_ = kept\n"})
+}
+
+// wave-8 aliases
+func init() {
+	// C01: a request-scoped record recycled through a pool carries no field of the previous request (one client's model
+	// name in another client's upstream X-Model header)
+	registerExtra("C01", func(c *Ctx, r *Report) { extraRawPoolWiped(c, r, "C01-R21") })
+	// C04: the attempt writes through the tracker the retry loop hands it (the loop's "nothing delivered yet" test reads it)
+	registerExtra("C04", func(c *Ctx, r *Report) {
+		r.WithAlias(map[string]string{"C02-R4": "C04-R19"}, func() { checkC02(c, r) })
+	})
+	// C05: every branch of the error wrapper yields an error (a nil answer for an unclassified dial failure is a success)
+	registerExtra("C05", func(c *Ctx, r *Report) {
+		r.WithAlias(map[string]string{"C04-R3": "C05-R17", "C04-R11": "C05-R18"}, func() { checkC04(c, r) })
+	})
+	// C06: every attempt, failover attempts included, goes to the endpoint the balancer selected for the remaining list
+	registerExtra("C06", func(c *Ctx, r *Report) {
+		r.WithAlias(map[string]string{"C04-R5": "C06-R14"}, func() { checkC04(c, r) })
+	})
+	// C07: the URL builder never hands out (and then edits) the endpoint's own URL object: the repository's key is
+	// computed from it, and health results for a key that no longer matches are dropped
+	registerExtra("C07", func(c *Ctx, r *Report) {
+		r.WithAlias(map[string]string{"C16-R1": "C07-R25"}, func() { checkC16(c, r) })
+	})
+	// C09: the index tear-down visits every model of the previous listing (a `return` for `continue` leaves stale entries)
+	registerExtra("C09", func(c *Ctx, r *Report) {
+		r.WithAlias(map[string]string{"C10-R6": "C09-R21"}, func() { extraC10Loops(c, r) })
+	})
+}
